@@ -162,7 +162,16 @@ class Env:
         # objects used by the serialisation operations, built while the process is still pristine
         self.sheets = [css_parser.parseString(t) for t in
                        ('a{x:1} a.c{y:2} b a{z:3}', '@media print{a{x:1} a b{y:2}} /*c*/ c{left:0.5px;color:#ffffff}',
-                        '@import "x.css" tv; @page :left{margin:0} @font-face{font-family:x}')]
+                        '@import "x.css" tv; @page :left{margin:0} @font-face{font-family:x}',
+                        '@variables{c:red; d:1px} a{color:var(c)} b{left:var(d)} e{top:var(nope)}')]
+        # long-lived objects, created while the process is pristine and used by later operations and canaries
+        C, S = css_parser.css, css_parser.stylesheets
+        def mk():
+            return {"vars": C.CSSVariablesDeclaration('a: 1'), "style": C.CSSStyleDeclaration('left: 1px'),
+                    "media": S.MediaList('print'), "sel": C.SelectorList('a'), "value": C.PropertyValue('1px'),
+                    "rule": C.CSSStyleRule('a', 'x: 1')}
+        self.live = mk()      # used by the operations of a history
+        self.livec = mk()     # used by the canaries only: their own content never depends on the history
         self.events[:] = []
 
     # -- tracing: token stash, push-back list, ProdParser(), serializer swaps, csscombine phases
@@ -470,6 +479,38 @@ def do_op(env, op):
     elif k == "obj":
         f = TARGETS[op[1]][0]
         return canon(f(op[2], op[3]))
+    elif k in ("live", "livec"):
+        L, what = (env.live if k == "live" else env.livec), op[1]
+        if what == "setVariable":
+            L["vars"].setVariable(op[2], op[3])
+            return canon(L["vars"].cssText)
+        if what == "vars[]":
+            L["vars"][op[2]] = op[3]
+            return canon(L["vars"].cssText)
+        if what == "setProperty":
+            L["style"].setProperty(op[2], op[3])
+            return canon(L["style"].cssText)
+        if what == "style[]":
+            L["style"][op[2]] = op[3]
+            return canon(L["style"].cssText)
+        if what == "appendMedium":
+            L["media"].appendMedium(op[2])
+            return canon(L["media"].mediaText)
+        if what == "appendSelector":
+            L["sel"].appendSelector(op[2])
+            return canon(L["sel"].selectorText)
+        if what == "value=":
+            L["value"].cssText = op[2]
+            return canon(L["value"].cssText)
+        if what == "rule.selectorText=":
+            L["rule"].selectorText = op[2]
+            return canon(L["rule"].cssText)
+        if what == "rule.style.cssText=":
+            L["rule"].style.cssText = op[2]
+            return canon(L["rule"].cssText)
+        raise ValueError("unknown live op %r" % (op,))
+    elif k == "prefs_vars":
+        return sorted((a, repr(b)) for a, b in vars(cp.ser.prefs).items())
     elif k == "ser_sheet":
         return canon(env.sheets[op[1]].cssText)
     elif k == "ser_rule":
@@ -510,7 +551,21 @@ CANARIES = [
     ["tokenizer", "default", "default", "a{b:1px}"],
     ["tokenizer", None, "short", "a{b:1px} 'x'"],
     ["valid", "color", "red"], ["valid", "x-a", "green"], ["valid", "color", "blue"],
+    ["ser_sheet", 3], ["prefs_vars"],
+    ["livec", "setVariable", "v1", "1px"], ["livec", "vars[]", "v2", "red"],
+    ["livec", "setProperty", "font-family", "'x y'"], ["livec", "style[]", "color", "red"],
+    ["livec", "appendMedium", "tv"], ["livec", "appendSelector", "b"], ["livec", "value=", "2px solid"],
+    ["livec", "rule.style.cssText=", "content: 'z'"],
 ]
+# canaries that are put FIRST in some runs: the first production parse after the history sees what it left behind
+LEADS = [0, 2, 5, 29, 30, 31, 32, 33, 35, 36]
+
+
+def split_lead(hist):
+    """a history may end with the pseudo-operation ["canary_first", k]: canary k is evaluated before the others"""
+    if hist and hist[-1][0] == "canary_first":
+        return hist[:-1], hist[-1][1]
+    return hist, None
 SER_CANARIES = {14, 15, 16, 17}
 
 
@@ -518,6 +573,7 @@ def run_history(task):
     """task: {hist, instrument, only_setters}.  Runs in a pristine forked process."""
     global TARGETS
     hist, instrument = task["hist"], task.get("instrument", False)
+    hist, lead = split_lead(hist)
     if task.get("only_setters"):
         hist = [op for op in hist if op[0] in SETTERS]
     env = Env(instrument)
@@ -545,11 +601,16 @@ def run_history(task):
         del env.cp.ser._selectors[:]
         env.cp.ser._selectorlevel = 0
     if not task.get("no_canaries"):
-        for op in CANARIES:
+        order = list(range(len(CANARIES)))
+        if lead is not None:
+            order = [lead] + [i for i in order if i != lead]
+        res_by_index = {}
+        for i in order:
             try:
-                out["canaries"].append(["ok", do_op(env, op)])
+                res_by_index[i] = ["ok", do_op(env, CANARIES[i])]
             except BaseException as e:  # noqa
-                out["canaries"].append(["exc", type(e).__name__])
+                res_by_index[i] = ["exc", type(e).__name__]
+        out["canaries"] = [res_by_index[i] for i in range(len(CANARIES))]
         out["final_settings"] = env.settings()[0:1] + env.settings()[2:]
     return out
 
@@ -584,6 +645,31 @@ def gen_nested(rng, nparsers, depth=0):
                         "Selector()", "CSSStyleDeclaration.cssText=", "CSSPageRule.cssText="])
     _, p1, p2 = TARGETS[label]
     return ["obj", label, rng.choice(p1), rng.choice(p2) if p2 else None]
+
+
+LIVE_OPS = None
+
+
+def live_ops():
+    """operations on the long-lived objects (created before the history starts)"""
+    vals = ["1px", "red", "'s'", "1px;", "a b;", "url(x)", "$", "", "1px }", "var(c)"]
+    ops = [["live", "setVariable", n, v] for n in ("v1", "a", "$", "x y") for v in vals[:6]]
+    ops += [["live", "vars[]", "w", v] for v in vals]
+    ops += [["live", "setProperty", n, v] for n in ("color", "font-family", "x") for v in vals]
+    ops += [["live", "style[]", "left", v] for v in vals[:5]]
+    ops += [["live", "appendMedium", t] for t in MEDIA_OK + MEDIA_BAD]
+    ops += [["live", "appendSelector", t] for t in SEL_OK[:4] + SEL_BAD[:4]]
+    ops += [["live", "value=", t] for t in VALUE_OK[:5] + VALUE_BAD]
+    ops += [["live", "rule.selectorText=", t] for t in SEL_OK[:3] + SEL_BAD[:3]]
+    ops += [["live", "rule.style.cssText=", t] for t in STYLE_OK[:3] + STYLE_BAD[:5]]
+    return ops
+
+
+def gen_live(rng):
+    global LIVE_OPS
+    if LIVE_OPS is None:
+        LIVE_OPS = live_ops()
+    return rng.choice(LIVE_OPS)
 
 
 def gen_cb(rng, nparsers):
@@ -654,15 +740,19 @@ def gen_op(rng, indent_ok, nparsers, reentrant=False):
         enc = rng.choice(TARGET_ENC)
         if enc:
             kw["targetencoding"] = enc
-        if rng.random() < 0.3:
+        if rng.random() < 0.4:
             kw["minify"] = False
+        if rng.random() < 0.4:
+            kw["resolveVariables"] = rng.choice([True, False])
         if rng.random() < 0.2:
             kw["sourceencoding"] = rng.choice(["ascii", "bogus", "utf-8"])
         return ["csscombine", kw]
-    if r < 0.58:
+    if r < 0.56:
+        return gen_live(rng)
+    if r < 0.59:
         return ["tokenizer", rng.choice([None, None, "default", "alt", "other"]), rng.choice([None, None, "default", "short"]),
                 rng.choice(["a{b:1px}", "q9 'x' @media", "/*c*/ -x \\41 "])]
-    if r < 0.62:
+    if r < 0.63:
         return ["valid", rng.choice(["color", "x-a", "left", "bogus"]), rng.choice(["red", "green", "blue", "1px", "$"])]
     label = rng.choice(LABELS)
     _, p1, p2 = TARGETS[label]
@@ -704,6 +794,8 @@ def gen_history(rng, maxlen, indent_ok, reentrant=False):
         if op[0] in ("new_parser", "parser_loglevel"):
             np_ += 1
         hist.append(op)
+    if rng.random() < 0.7:
+        hist.append(["canary_first", rng.choice(LEADS)])
     return hist
 
 
@@ -733,6 +825,10 @@ def all_single_ops():
     ops += [["ser_sheet", i] for i in range(3)] + [["ser_rule", 0, i] for i in range(3)]
     for enc in TARGET_ENC[1:]:
         ops.append(["csscombine", {"cssText": "a{color:red}", "targetencoding": enc}])
+    ops += live_ops()
+    for mini in (True, False):
+        for rv in (True, False):
+            ops.append(["csscombine", {"cssText": "@variables{c:red} a{color:var(c)}", "minify": mini, "resolveVariables": rv}])
     ops += [["csscombine", {"cssText": {"b": BYTES[0]}}], ["csscombine", {"path": FILES[0]}], ["csscombine", {"cssText": "$"}],
             ["csscombine", {"cssText": "@import 'nonexistent.css'; a{x:1}", "minify": False}]]
     return ops
@@ -932,7 +1028,7 @@ def describe_op(op):
     return json.dumps(op, ensure_ascii=True)
 
 
-def oracle(hist, res, ref):
+def oracle(hist, res, ref, lead=None):
     """the property, evaluated on the implementation: returns list of (description, sig_text)"""
     out = []
     indent = any(op[0] == "set_pref" and op[1] == "indentSpecificities" and op[2] for op in hist)
@@ -949,8 +1045,10 @@ def oracle(hist, res, ref):
             again = isolated_map([{"hist": hist, "reset_memo": True}])[0]
             if again["canaries"] == ref["canaries"]:
                 kinds = "only-through-selector-memo"
+        if lead in diff:
+            k = lead
         out.append(("canary results differ from a pristine interpreter that performed only the caller's settings: "
-                    "canary %d %s gives %s, pristine %s" % (k, describe_op(CANARIES[k])[:80], json.dumps(res["canaries"][k])[:120],
+                    "canary %d %s%s gives %s, pristine %s" % (k, describe_op(CANARIES[k])[:80], " (evaluated first)" if k == lead else "", json.dumps(res["canaries"][k])[:120],
                                                            json.dumps(ref["canaries"][k])[:120]),
                     "canaries indentSpecificities=%s differing=%s" % ("on" if indent else "off", kinds)))
     elif res.get("final_settings") != ref.get("final_settings"):
@@ -962,15 +1060,16 @@ def oracle(hist, res, ref):
 def check_histories(hists):
     """oracle on the implementation for each history; returns list of (hist, [(desc, sig)])"""
     runs = isolated_map([{"hist": h} for h in hists])
+    def refkey(h):
+        return json.dumps([op for op in h if op[0] in SETTERS or op[0] == "canary_first"])
     keys = {}
     for h in hists:
-        keys.setdefault(json.dumps([op for op in h if op[0] in SETTERS]), h)
+        keys.setdefault(refkey(h), h)
     refs_list = isolated_map([{"hist": h, "only_setters": True} for h in keys.values()])
     refs = dict(zip(keys.keys(), refs_list))
     out = []
     for h, r in zip(hists, runs):
-        ref = refs[json.dumps([op for op in h if op[0] in SETTERS])]
-        out.append((h, oracle(h, r, ref), r))
+        out.append((h, oracle(split_lead(h)[0], r, refs[refkey(h)], split_lead(h)[1]), r))
     return out
 
 
@@ -1056,6 +1155,11 @@ def run(ctx):
     # exhaustive pairs: (every call that can leave something behind) x (every call), thorough: all pairs
     contaminators = [op for op in singles if op[0] in ("tokenizer", "set_dx") or op[0] == "obj" and op[1].startswith(("MediaQuery", "MediaList"))
                      or op[0] in ("csscombine", "parseFile") or (op[0] == "parseString" and isinstance(op[1], dict))]
+    contaminators += [op for op in singles if op[0] == "live"]
+    # every operation that can leave something behind, followed by each leak-sensitive canary evaluated FIRST
+    lead_src = contaminators if thorough else contaminators[ctx.seed % 2::2]
+    hists += [[op, ["canary_first", k]] for op in lead_src for k in LEADS[::(1 if thorough else 2)] +
+              ([] if thorough else LEADS[1 + ctx.seed % 2::4])]
     if thorough:
         pairs = [[a, b2] for a in contaminators[::2] for b2 in singles[ctx.seed % 12::12]]
     else:
